@@ -561,18 +561,23 @@ def unscheduleCompleted (s : SchedSt) (msgs : List (List Nat)) : SchedSt × Bool
       (uids.foldl releaseOne
         { s with activeCnt := s.activeCnt - uids.length, unschedQ := rest }, true, true)
 
-/-- one iteration of the `while` loop of `_schedule_tasks`; `res` is the `resources` flag -/
-def loopIter (c : Cfg) (s : SchedSt) (res : Bool) (it : Iter) : SchedSt × Bool × List Ev :=
+/-- the part of an iteration before `_unschedule_completed`: marks and environments arrive, the wait
+    pool is tried (if there may be resources), incoming tasks are placed or parked -/
+def loopIterA (c : Cfg) (s : SchedSt) (res : Bool) (it : Iter) : SchedSt × Bool × List Ev :=
   (fun (s0 : SchedSt) =>
     (fun (w : SchedSt × List Ev × Bool × Bool) =>
       match scheduleIncoming c w.1 it.incoming with
       | (s2, evs2, rInc, _) =>
-        (fun (res1 : Bool) =>
-          match unscheduleCompleted s2 it.unsched with
-          | (s3, r, _) => (s3, (if ¬ res1 ∧ r then true else res1), w.2.1 ++ evs2))
-          (if res ∧ (w.2.2.1 = false ∧ rInc = some false) then false else res))
+        (s2, (if res ∧ (w.2.2.1 = false ∧ rInc = some false) then false else res), w.2.1 ++ evs2))
       (if res then scheduleWaitpool c s0 else (s0, [], false, false)))
     { s with cancel := s.cancel ++ it.marks, envs := s.envs ++ it.envs }
+
+/-- one iteration of the `while` loop of `_schedule_tasks`; `res` is the `resources` flag -/
+def loopIter (c : Cfg) (s : SchedSt) (res : Bool) (it : Iter) : SchedSt × Bool × List Ev :=
+  match loopIterA c s res it with
+  | (s2, res1, evs) =>
+    match unscheduleCompleted s2 it.unsched with
+    | (s3, r, _) => (s3, (if ¬ res1 ∧ r then true else res1), evs)
 
 def runLoop (c : Cfg) : SchedSt → Bool → List Iter → List (List Ev) → SchedSt × Bool × List (List Ev)
   | s, res, [],        acc => (s, res, acc)
